@@ -8,4 +8,9 @@ require (
 	github.com/spaolacci/murmur3 v1.1.0
 )
 
+require (
+	github.com/klauspost/compress v1.17.9 // indirect
+	golang.org/x/exp v0.0.0-20240604190554-fc45aab8b7f8 // indirect
+)
+
 replace github.com/fluhus/biostuff => /repo
